@@ -40,6 +40,29 @@ BASE = 1600000000.0
 PCT = {'p50': 0.5, 'p75': 0.75, 'p80': 0.8, 'p90': 0.9, 'p95': 0.95, 'p99': 0.99, 'p999': 0.999}
 
 
+def advance_through(clock, d, max_ticks=400):
+  """Advance the virtual clock by d the way a reactor does: every timer fires at its own due time (task.Clock.advance
+  alone would run a LoopingCall once at the end and let it skip the intervals in between).  Very long waits with a
+  short period are coarsened to about max_ticks stops."""
+  target = clock.seconds() + d
+  floor = d / float(max_ticks)
+  n = 0
+  while True:
+    due = [c.getTime() for c in clock.getDelayedCalls()]
+    nxt = min(due) if due else None
+    if nxt is None or nxt > target:
+      break
+    step = max(nxt - clock.seconds(), floor if n >= max_ticks else 0.0)
+    if clock.seconds() + step > target:
+      break
+    clock.advance(step)
+    n += 1
+    if n > 5 * max_ticks:
+      break
+  if target > clock.seconds():
+    clock.advance(target - clock.seconds())
+
+
 @st.composite
 def cases(draw):
   nrules = draw(st.integers(1, 4))
@@ -67,12 +90,22 @@ def cases(draw):
       steps.append(['advance', draw(st.sampled_from(['freq', '1', '3freq']))])
       for _ in range(draw(st.integers(1, 3))):
         steps.append(['recv', nm, 'same', draw(st.integers(-20, 20))])
+    elif k == 8 and used and draw(st.booleans()):
+      # a trickle around an interval edge with flushes that are not on the edge: two arrivals a little apart, about
+      # one interval of flushes, then a late datapoint for the same interval
+      nm = draw(st.sampled_from(used))
+      steps.append(['recv', nm, 'now', draw(st.integers(-20, 20))])
+      steps.append(['advance', draw(st.sampled_from(['1', '1', '7', 'half']))])
+      steps.append(['recv', nm, 'now', draw(st.integers(-20, 20))])
+      steps.append(['advance', draw(st.sampled_from(['freq', 'freq', 'half', 'freq+7']))])
+      steps.append(['recv', nm, draw(st.sampled_from(['late1', 'late1', 'now', 'same'])), draw(st.integers(-20, 20))])
+      steps.append(['advance', draw(st.sampled_from(['1', '7', 'half', 'freq']))])
     elif k == 6 and used:
       # a live datapoint followed by a replayed backlog of older intervals (buffers allocated out of order)
       steps.append(['replay', draw(st.sampled_from(used)), draw(st.integers(2, 9)), draw(st.integers(-20, 20)),
                     draw(st.sampled_from(['desc', 'asc', 'live-last']))])
     else:
-      steps.append(['advance', draw(st.sampled_from(['0.5', '1', '1', 'freq', 'freq', '3freq', '50freq']))])
+      steps.append(['advance', draw(st.sampled_from(['0.5', '1', '1', '7', 'half', 'freq', 'freq', '3freq', '50freq']))])
   return {'rules': rules, 'styles': [draw(st.integers(0, 1)) for _ in rules], 'max_intervals': maxint,
           'wbf': draw(st.sampled_from([None, None, 1, 2, 7, 30])), 'forward_all': draw(st.booleans()),
           'cache': draw(st.sampled_from(['off', 'off', 'lru', 'ttl'])), 'steps': steps}
@@ -232,8 +265,9 @@ def execute(ctx, case):
 
     for step in case['steps']:
       if step[0] == 'advance':
-        d = {'0.5': 0.5, '1': 1.0, 'freq': float(maxfreq), '3freq': 3.0 * maxfreq, '50freq': 50.0 * maxfreq}[step[1]]
-        clock.advance(d)
+        d = {'0.5': 0.5, '1': 1.0, '7': 7.0, 'half': maxfreq / 2.0, 'freq': float(maxfreq), 'freq+7': maxfreq + 7.0,
+             '3freq': 3.0 * maxfreq, '50freq': 50.0 * maxfreq}[step[1]]
+        advance_through(clock, d)
         continue
       now = FakeTime.time()
       f0 = case['rules'][0]['frequency']
@@ -256,6 +290,10 @@ def execute(ctx, case):
     for _ in range(nsteps + 1):
       clock.advance(total / float(nsteps + 1) if nsteps >= 700 else period)
     # ---- judge emissions ---------------------------------------------------------------
+    if os.environ.get('VERIF_C08_DEBUG'):
+      print('emitted', [(a, I - BASE, v, T - BASE) for (a, I, v, T, sq) in emitted])
+      print('flushes', {a: [F - BASE for F in fs] for a, fs in flushes.items()})
+      print('received', {(a, I - BASE): [(x[0], x[1] - BASE) for x in vs] for (a, I), vs in R.items()})
     pos = {}       # (s, I) -> index of first value not yet covered by an emission
     for (a, I, v, T, sq) in emitted:
       if (a, I) not in R:
